@@ -58,6 +58,41 @@ type entry struct {
 	size       int
 	values     []*dictionary.Value
 	consts     []string // X_Value_* identifiers present in the generated file
+	sigs       map[string]sigInfo
+}
+
+// sigInfo: the call plumbing of one generated function, read off its ACTUAL signature (whether the
+// signature is the right one for the attribute's flags is C17's question, not the registry's)
+type sigInfo struct {
+	exists bool
+	nPkt   int  // *radius.Packet parameters (1: p, 2: p, q)
+	tagIn  bool // has a `tag byte` parameter
+	tagOut bool // first result is the tag / tags
+}
+
+func sigOf(fd *ast.FuncDecl) sigInfo {
+	si := sigInfo{exists: true}
+	for _, f := range fd.Type.Params.List {
+		if st, ok := f.Type.(*ast.StarExpr); ok {
+			if sel, ok := st.X.(*ast.SelectorExpr); ok && sel.Sel.Name == "Packet" {
+				si.nPkt += len(f.Names)
+				continue
+			}
+		}
+		for _, n := range f.Names {
+			if n.Name == "tag" {
+				si.tagIn = true
+			}
+		}
+	}
+	if fd.Type.Results != nil && len(fd.Type.Results.List) > 0 {
+		for _, n := range fd.Type.Results.List[0].Names {
+			if n.Name == "tag" || n.Name == "tags" {
+				si.tagOut = true
+			}
+		}
+	}
+	return si
 }
 
 func must(err error) {
@@ -377,6 +412,12 @@ func analyse(p *pkgInfo) []*entry {
 		}
 		e.consts = valueConsts[e.ident]
 		sort.Strings(e.consts)
+		e.sigs = map[string]sigInfo{}
+		for _, suf := range []string{"Add", "AddString", "Set", "SetString", "Get", "GetString", "Gets", "GetStrings", "Lookup", "LookupString", "Del"} {
+			if fd, ok := funcs[e.ident+"_"+suf]; ok {
+				e.sigs[suf] = sigOf(fd)
+			}
+		}
 		out = append(out, e)
 	}
 	for _, a := range dict.Attributes {
@@ -463,32 +504,50 @@ func emit(b *strings.Builder, e *entry) {
 			return "gval{N: uint64(" + expr + ")}"
 		}
 	}
-	tagArg, tagRet, tagsRet := "", "", ""
-	if e.hasTag {
-		tagArg, tagRet, tagsRet = "tag, ", "tag, ", "tags, "
+	tagArg := func(suf string) string {
+		if e.sigs[suf].tagIn {
+			return "tag, "
+		}
+		return ""
 	}
-	pq := "p"
-	if e.encrypt == 2 && !(e.hasTag && (e.kind == "integer" || e.kind == "integer64" || e.kind == "short")) && e.kind != "byte" && e.kind != "date" && e.kind != "ifid" && e.kind != "ipv6prefix" {
-		pq = "p, q"
+	tagRet := func(suf, name string) string {
+		if e.sigs[suf].tagOut {
+			return name + ", "
+		}
+		return ""
+	}
+	pq := func(suf string) string {
+		if e.sigs[suf].nPkt >= 2 {
+			return "p, q"
+		}
+		return "p"
 	}
 	fmt.Fprintf(b, "\t{Pkg: %q, Ident: %q, DictName: %q, Typ: %d, VendorID: %d, VendorType: %d, Kind: %q, HasTag: %v, Encrypt: %d, Size: %d, Synthetic: %v,\n",
 		e.pkg.importPath, e.ident, e.dictName, e.typ, e.vendorID, e.vendorType, e.kind, e.hasTag, e.encrypt, e.size, e.pkg.synthetic)
-	if e.kind != "concat" {
-		fmt.Fprintf(b, "\t\tAdd: func(p *radius.Packet, tag byte, v gval) error { return %s_Add(p, %s%s) },\n", q, tagArg, conv("v"))
-		fmt.Fprintf(b, "\t\tGets: func(p, q *radius.Packet) (tags []byte, vs []gval, err error) { %sxs, err := %s_Gets(%s); for _, x := range xs { vs = append(vs, %s) }; return }, \n", tagsRet, q, pq, back("x"))
+	if e.sigs["Add"].exists {
+		fmt.Fprintf(b, "\t\tAdd: func(p *radius.Packet, tag byte, v gval) error { return %s_Add(p, %s%s) },\n", q, tagArg("Add"), conv("v"))
 	}
-	fmt.Fprintf(b, "\t\tSet: func(p *radius.Packet, tag byte, v gval) error { return %s_Set(p, %s%s) },\n", q, tagArg, conv("v"))
-	fmt.Fprintf(b, "\t\tGet: func(p, q *radius.Packet) (tag byte, v gval) { %sx := %s_Get(%s); return tag, %s },\n", tagRet, q, pq, back("x"))
-	fmt.Fprintf(b, "\t\tLookup: func(p, q *radius.Packet) (tag byte, v gval, err error) { %sx, err := %s_Lookup(%s); return tag, %s, err },\n", tagRet, q, pq, back("x"))
+	if e.sigs["Gets"].exists {
+		fmt.Fprintf(b, "\t\tGets: func(p, q *radius.Packet) (tags []byte, vs []gval, err error) { %sxs, err := %s_Gets(%s); for _, x := range xs { vs = append(vs, %s) }; return }, \n", tagRet("Gets", "tags"), q, pq("Gets"), back("x"))
+	}
+	fmt.Fprintf(b, "\t\tSet: func(p *radius.Packet, tag byte, v gval) error { return %s_Set(p, %s%s) },\n", q, tagArg("Set"), conv("v"))
+	fmt.Fprintf(b, "\t\tGet: func(p, q *radius.Packet) (tag byte, v gval) { %sx := %s_Get(%s); return tag, %s },\n", tagRet("Get", "tag"), q, pq("Get"), back("x"))
+	fmt.Fprintf(b, "\t\tLookup: func(p, q *radius.Packet) (tag byte, v gval, err error) { %sx, err := %s_Lookup(%s); return tag, %s, err },\n", tagRet("Lookup", "tag"), q, pq("Lookup"), back("x"))
 	fmt.Fprintf(b, "\t\tDel: func(p *radius.Packet) { %s_Del(p) },\n", q)
-	if e.kind == "string" || e.kind == "octets" || e.kind == "concat" {
-		if e.kind != "concat" {
-			fmt.Fprintf(b, "\t\tAddString: func(p *radius.Packet, tag byte, s string) error { return %s_AddString(p, %ss) },\n", q, tagArg)
-			fmt.Fprintf(b, "\t\tGetStrings: func(p, q *radius.Packet) (tags []byte, vs []string, err error) { %svs, err = %s_GetStrings(%s); return },\n", tagsRet, q, pq)
-		}
-		fmt.Fprintf(b, "\t\tSetString: func(p *radius.Packet, tag byte, s string) error { return %s_SetString(p, %ss) },\n", q, tagArg)
-		fmt.Fprintf(b, "\t\tGetString: func(p, q *radius.Packet) (tag byte, s string) { %ss = %s_GetString(%s); return },\n", tagRet, q, pq)
-		fmt.Fprintf(b, "\t\tLookupString: func(p, q *radius.Packet) (tag byte, s string, err error) { %ss, err = %s_LookupString(%s); return },\n", tagRet, q, pq)
+	if e.sigs["AddString"].exists {
+		fmt.Fprintf(b, "\t\tAddString: func(p *radius.Packet, tag byte, s string) error { return %s_AddString(p, %ss) },\n", q, tagArg("AddString"))
+	}
+	if e.sigs["GetStrings"].exists {
+		fmt.Fprintf(b, "\t\tGetStrings: func(p, q *radius.Packet) (tags []byte, vs []string, err error) { %svs, err = %s_GetStrings(%s); return },\n", tagRet("GetStrings", "tags"), q, pq("GetStrings"))
+	}
+	if e.sigs["SetString"].exists {
+		fmt.Fprintf(b, "\t\tSetString: func(p *radius.Packet, tag byte, s string) error { return %s_SetString(p, %ss) },\n", q, tagArg("SetString"))
+	}
+	if e.sigs["GetString"].exists {
+		fmt.Fprintf(b, "\t\tGetString: func(p, q *radius.Packet) (tag byte, s string) { %ss = %s_GetString(%s); return },\n", tagRet("GetString", "tag"), q, pq("GetString"))
+	}
+	if e.sigs["LookupString"].exists {
+		fmt.Fprintf(b, "\t\tLookupString: func(p, q *radius.Packet) (tag byte, s string, err error) { %ss, err = %s_LookupString(%s); return },\n", tagRet("LookupString", "tag"), q, pq("LookupString"))
 	}
 	if e.kind == "integer" || e.kind == "integer64" || e.kind == "short" {
 		fmt.Fprintf(b, "\t\tStr: func(n uint64) string { return %s(n).String() },\n", q)
